@@ -169,9 +169,26 @@ func runHistory(r *Run, g *Gen, hc histCfg) {
 			// restart: the start-up clear meets tables with well over a hundred entries
 			n := 21 + r.Ch.Choose(14, "mass-n")
 			cnt := 0
+			lastKA := r.Sim.NowNS()
 			for i := 0; i < n && r.AgentAlive() && r.Hard() == 0; i++ {
+				if r.Sim.NowNS()-lastKA > int64(4*time.Second) {
+					// (slow writes stretch the attach over many seconds: the other peers
+					// keep their associations alive meanwhile, or the read timeout ends them)
+					lastKA = r.Sim.NowNS()
+					for _, q := range r.Peers {
+						if q != p && q.Associated {
+							q.Heartbeat()
+						}
+					}
+				}
 				s := g.Session(p, SessShape{BaseSDF: g.Flow(false), TEIDChoose: true})
 				res := p.Establish(s)
+				r.Op("  establish peer%d cp=%d -> accepted=%v cause=%d up=%d", p.Idx, s.CPSEID, res.Accepted, res.Cause, s.UPSEID)
+				if res.Rx == nil && r.AgentAlive() {
+					// the peer gave up waiting (slow writes): the model cannot follow the agent any further
+					r.Inconclusive++
+					return
+				}
 				if !res.Accepted {
 					if res.Rx != nil && r.AgentAlive() {
 						r.TaintRun("up4-refused-establishment")
